@@ -276,3 +276,57 @@ Proof.
   - exact (Hb fid eq_refl x x' Ex Ex').
   - injection Ex as <-. injection Ex' as <-. apply Qle_refl.
 Qed.
+
+(* ------------------------------------------------------------------------------------------------ sweeps of a function of the level *)
+Definition fstep_ok (f : Z -> option Q) (l : Z) : bool :=
+  match f l, f (l + 1)%Z with Some a, Some b => Qle_bool a b | _, _ => false end.
+
+Lemma fsweep f lo hi : (exists v, f lo = Some v) -> forallb (fstep_ok f) (zspan lo hi) = true ->
+  forall l1 l2, (lo <= l1)%Z -> (l1 <= l2)%Z -> (l2 <= hi)%Z -> exists v1 v2, f l1 = Some v1 /\ f l2 = Some v2 /\ v1 <= v2.
+Proof.
+  intros Hd Hs. rewrite forallb_forall in Hs.
+  assert (Hdef : forall l, (lo <= l <= hi)%Z -> exists v, f l = Some v).
+  { intros l Hl. destruct (Z.eq_dec l lo) as [->|Hne]; [exact Hd|].
+    assert (Hin : In (l - 1)%Z (zspan lo hi)) by (apply zspan_In; lia).
+    specialize (Hs _ Hin). unfold fstep_ok in Hs. replace (l - 1 + 1)%Z with l in Hs by lia.
+    destruct (f (l - 1)%Z); [|discriminate]. destruct (f l) as [v|]; [eauto|discriminate]. }
+  assert (Hn : forall n l1, (lo <= l1)%Z -> (l1 + Z.of_nat n <= hi)%Z ->
+               exists v1 v2, f l1 = Some v1 /\ f (l1 + Z.of_nat n)%Z = Some v2 /\ v1 <= v2).
+  { induction n as [|n IH]; intros l1 H1 H2.
+    - destruct (Hdef l1) as [v Hv]; [lia|]. exists v, v. replace (l1 + Z.of_nat 0)%Z with l1 by lia. repeat split; try assumption. apply Qle_refl.
+    - destruct (IH l1 H1) as (v1 & v2 & E1 & E2 & Hle); [lia|].
+      assert (Hin : In (l1 + Z.of_nat n)%Z (zspan lo hi)) by (apply zspan_In; lia).
+      specialize (Hs _ Hin). unfold fstep_ok in Hs. rewrite E2 in Hs.
+      replace (l1 + Z.of_nat n + 1)%Z with (l1 + Z.of_nat (S n))%Z in Hs by lia.
+      destruct (f (l1 + Z.of_nat (S n))%Z) as [v3|]; [|discriminate].
+      exists v1, v3. repeat split; try assumption. apply Qle_bool_le in Hs. eapply Qle_trans; eassumption. }
+  intros l1 l2 H1 H12 H2. destruct (Hn (Z.to_nat (l2 - l1)) l1 H1) as (v1 & v2 & E1 & E2 & Hle); [lia|].
+  replace (l1 + Z.of_nat (Z.to_nat (l2 - l1)))%Z with l2 in E2 by lia. eauto.
+Qed.
+
+(* ------------------------------------------------------------------------------------------------ sparse field lists *)
+Lemma base_fields_sget fv fv' l : forall kv kv',
+  (forall k b, In (k, b) l -> forall x x', base_value fv b = Some x -> base_value fv' b = Some x' -> x <= x') ->
+  base_fields fv l = Some kv -> base_fields fv' l = Some kv' -> forall k, sget k kv <= sget k kv'.
+Proof.
+  induction l as [|[k0 b0] r IH]; intros kv kv' H E E' k; cbn [base_fields] in E, E'.
+  - injection E as <-. injection E' as <-. apply Qle_refl.
+  - destruct (base_value fv b0) as [x|] eqn:Ex; [|discriminate]. destruct (base_fields fv r) as [kr|] eqn:Er; [|discriminate].
+    destruct (base_value fv' b0) as [x'|] eqn:Ex'; [|discriminate]. destruct (base_fields fv' r) as [kr'|] eqn:Er'; [|discriminate].
+    injection E as <-. injection E' as <-. unfold sget, lookup. cbn [find fst snd].
+    destruct (String.eqb k0 k).
+    + exact (H k0 b0 (or_introl eq_refl) x x' Ex Ex').
+    + exact (IH kr kr' (fun k1 b1 Hin => H k1 b1 (or_intror Hin)) eq_refl eq_refl k).
+Qed.
+
+Lemma base_fields_bound (P : Q -> Prop) fv l : forall kv key, P 0 ->
+  (forall b, In (key, b) l -> forall x, base_value fv b = Some x -> P x) ->
+  base_fields fv l = Some kv -> P (sget key kv).
+Proof.
+  induction l as [|[k0 b0] r IH]; intros kv key H0 H E; cbn [base_fields] in E.
+  - injection E as <-. exact H0.
+  - destruct (base_value fv b0) as [x|] eqn:Ex; [|discriminate]. destruct (base_fields fv r) as [kr|] eqn:Er; [|discriminate].
+    injection E as <-. unfold sget, lookup. cbn [find fst snd]. destruct (String.eqb k0 key) eqn:Ek.
+    + apply String.eqb_eq in Ek. subst k0. exact (H b0 (or_introl eq_refl) x Ex).
+    + exact (IH kr key H0 (fun b Hin => H b (or_intror Hin)) eq_refl).
+Qed.
